@@ -780,7 +780,7 @@ func c03R3(p *Prog, r *Report) {
 	if !okSeed && seed != nil {
 		// the clamp may sit in a helper method of the group that returns the starting number:
 		// every return of the helper must be bounded by the first queued packet's number there
-		if hc, isCall := seed.(*ssa.Call); isCall && isModuleFn(hc.Call.StaticCallee()) && len(hc.Call.Args) > 0 && hc.Call.Args[0] == ssa.Value(fn.Params[0]) {
+		if hc, isCall := seed.(*ssa.Call); isCall && isModuleFn(hc.Call.StaticCallee()) && len(hc.Call.Args) > 0 && resolveCell(hc.Call.Args[0]) == ssa.Value(fn.Params[0]) {
 			h := hc.Call.StaticCallee()
 			r.Fn(FuncName(h))
 			g2 := NewGuardCtx(p, h, nil)
